@@ -40,3 +40,15 @@ Print Assumptions C19_success_iff.
    a failure of the write itself (not input-caused) would leave a truncated file *)
 Example C19_example : predict (Some SReduce) = Some Old /\ predict (Some SLex) = Some Old /\ predict None = Some New /\ predict (Some SWrite) = Some Empty.
 Proof. vm_compute. auto. Qed.
+
+From Coq Require Import NArith Ascii.
+From YG Require Import EmitAction.
+Close Scope Z_scope.
+Open Scope nat_scope.
+
+(* input-caused failures inside semantic actions, on the model of the substitution: using the value of an untyped left-hand side stops the generation (before the output file is created: C19_atomic); out-of-range and untyped references likewise (C16_action_reference) *)
+Theorem C19_untyped_self_stops :
+  forall (sp ao am : list Ascii.ascii) (rtags : list (list Ascii.ascii)) (s : list Ascii.ascii),
+         has_self s = true -> subst_action sp ao am [] rtags s = None.
+Proof. exact EmitAction.subst_self_untyped. Qed.
+Print Assumptions C19_untyped_self_stops.
